@@ -184,7 +184,10 @@ func TestVerifC05DistributedQuery(t *testing.T) {
 		// storage reads (Flux): every stored value exactly once - two fields per point
 		stmts = append(stmts,
 			vkStmt{"storageRead", fmt.Sprintf("storage %d %d", (base-3600)*1e9, (base+int64(groups+1)*3600)*1e9), func(r vkResult) string { return vkWantRows(r, 3*nm*total) }},
-			vkStmt{"storageRead", fmt.Sprintf("storage %d %d", (base-3600)*1e9, (base+int64(groups+1)*3600)*1e9), func(r vkResult) string { return vkWantRows(r, 3*nm*total) }})
+			vkStmt{"storageRead", fmt.Sprintf("storage %d %d", (base-3600)*1e9, (base+int64(groups+1)*3600)*1e9), func(r vkResult) string { return vkWantRows(r, 3*nm*total) }},
+			// storage ReadGroup (group() pushed down): ungrouped and grouped by the tag; every stored value exactly once
+			vkStmt{"storageGroupNone", fmt.Sprintf("storage %d %d none", (base-3600)*1e9, (base+int64(groups+1)*3600)*1e9), func(r vkResult) string { return vkWantRows(r, 3*nm*total) }},
+			vkStmt{"storageGroupBy", fmt.Sprintf("storage %d %d by", (base-3600)*1e9, (base+int64(groups+1)*3600)*1e9), func(r vkResult) string { return vkWantRows(r, 3*nm*total) }})
 		if twoMeasurements {
 			wantBoth := func(n int) func(r vkResult) string {
 				return func(r vkResult) string {
@@ -501,23 +504,34 @@ func vkExec(cl *vkCluster, node int, db, text string) vkResult {
 		return cl.query(node, db, text)
 	}
 	var lo, hi int64
-	fmt.Sscanf(text, "storage %d %d", &lo, &hi)
+	var mode string // "": ReadFilter, "none"/"by": ReadGroup
+	fmt.Sscanf(text, "storage %d %d %s", &lo, &hi, &mode)
 	srv := cl.nodes[node].srv
 	cs := storage.NewClusterStore(srv.ClusterStore, srv.MetaClient, srv.MetaExecutor)
 	src, err := types.MarshalAny(&storage.ReadSource{Database: db, RetentionPolicy: "rp"})
 	if err != nil {
 		return vkResult{Err: "harness: " + err.Error()}
 	}
-	rs, err := cs.ReadFilter(context.Background(), &datatypes.ReadFilterRequest{ReadSource: src, Range: datatypes.TimestampRange{Start: lo, End: hi}})
-	if err != nil {
-		return vkResult{Err: err.Error()}
-	}
 	var out vkResult
-	if rs == nil {
+	var lines []string
+	// one series of a result set (ReadFilter) or of a group (ReadGroup)
+	type seriesSrc interface {
+		Next() bool
+		Cursor() cursors.Cursor
+		Tags() models.Tags
+	}
+	var readSeries func(rs seriesSrc, prefix string) string
+	finish := func() vkResult {
+		sort.Strings(lines)
+		var sb strings.Builder
+		sb.WriteString("storage points\n")
+		for _, l := range lines {
+			sb.WriteString("  [" + l + "]\n")
+		}
+		out.Rows = []string{sb.String()}
 		return out
 	}
-	defer rs.Close()
-	var lines []string
+	readSeries = func(rs seriesSrc, prefix string) string {
 	for rs.Next() {
 		var key string
 		for _, tag := range rs.Tags() {
@@ -556,21 +570,58 @@ func vkExec(cl *vkCluster, node int, db, text string) vkResult {
 		}
 		if err := cur.Err(); err != nil {
 			cur.Close()
-			return vkResult{Err: err.Error()}
+			return err.Error()
 		}
 		cur.Close()
+	}
+	return ""
+	}
+	if mode != "" {
+		// ReadGroup (what a Flux group() pushed down to storage issues): group by tag h, or no grouping
+		req := &datatypes.ReadGroupRequest{ReadSource: src, Range: datatypes.TimestampRange{Start: lo, End: hi}, Group: datatypes.GroupNone}
+		if mode == "by" {
+			req.Group = datatypes.GroupBy
+			req.GroupKeys = []string{"h"}
+		}
+		grs, err := cs.ReadGroup(context.Background(), req)
+		if err != nil {
+			return vkResult{Err: err.Error()}
+		}
+		if grs == nil {
+			return out
+		}
+		defer grs.Close()
+		for gc := grs.Next(); gc != nil; gc = grs.Next() {
+			if e := readSeries(gc, ""); e != "" {
+				gc.Close()
+				return vkResult{Err: e}
+			}
+			if err := gc.Err(); err != nil {
+				gc.Close()
+				return vkResult{Err: err.Error()}
+			}
+			gc.Close()
+		}
+		if err := grs.Err(); err != nil {
+			return vkResult{Err: err.Error()}
+		}
+		return finish()
+	}
+	rs, err := cs.ReadFilter(context.Background(), &datatypes.ReadFilterRequest{ReadSource: src, Range: datatypes.TimestampRange{Start: lo, End: hi}})
+	if err != nil {
+		return vkResult{Err: err.Error()}
+	}
+	if rs == nil {
+		return out
+	}
+	defer rs.Close()
+	if e := readSeries(rs, ""); e != "" {
+		return vkResult{Err: e}
 	}
 	if err := rs.Err(); err != nil {
 		return vkResult{Err: err.Error()}
 	}
-	sort.Strings(lines)
-	var sb strings.Builder
-	sb.WriteString("storage points\n")
-	for _, l := range lines {
-		sb.WriteString("  [" + l + "]\n")
-	}
-	out.Rows = []string{sb.String()}
-	return out
+	return finish()
 }
 
 func vkWantContains(r vkResult, sub string) string {
